@@ -1005,6 +1005,22 @@ func nonEmptyString(p *Prog, fn *ssa.Function, v ssa.Value, at ssa.Instruction, 
 	if ph, ok := v.(*ssa.Phi); ok {
 		for i, e := range ph.Edges {
 			pred := ph.Block().Preds[i]
+			// the predecessor itself may be the test: `cp := opt.Path; if cp == "" { cp = "/" }` joins on the
+			// non-empty edge of that very branch
+			if ifi, ok := pred.Instrs[len(pred.Instrs)-1].(*ssa.If); ok && pred.Succs[0] != pred.Succs[1] {
+				cnd, pos := condStrip(ifi.Cond)
+				if bo, ok := cnd.(*ssa.BinOp); ok && (bo.Op == token.NEQ || bo.Op == token.EQL) && stripConv(bo.X) == stripConv(e) {
+					if c, ok := bo.Y.(*ssa.Const); ok && c.Value != nil && c.Value.Kind() == constant.String && constant.StringVal(c.Value) == "" {
+						k := 0
+						if (bo.Op == token.NEQ) != pos {
+							k = 1
+						}
+						if pred.Succs[k] == ph.Block() {
+							continue
+						}
+					}
+				}
+			}
 			if !nonEmptyString(p, fn, e, pred.Instrs[len(pred.Instrs)-1], d+1) {
 				return false
 			}
